@@ -157,7 +157,7 @@ package delegation
 //@   assumes result1 == nil ==> result0 == sealedNoded(t, privKey, old(signings(privKey)))
 //@   assigns signings(privKey)
 //@   ensures [C08,C18] once: result1 == nil ==> signings(privKey) == old(signings(privKey)) + 1
-//@   ensures result1 == nil ==> result0 != nil
+//@   ensures nonnil: result1 == nil ==> result0 != nil
 //@   ensures [C07] model: result1 == nil ==> sealedModel(result0) is *tokenPayloadModel && sealedModel(result0).(*tokenPayloadModel) != nil && modelOf(sealedModel(result0).(*tokenPayloadModel), t)
 //@ pure func modelOf(m *tokenPayloadModel, t *Token) bool =
 //@     m.Iss == strOf(t.issuer) && m.Aud == strOf(t.audience) && (t.subject == did.Undef ? m.Sub == nil : (m.Sub != nil && *m.Sub == strOf(t.subject)))
